@@ -61,6 +61,25 @@ type verifBufClaims struct {
 	g1  *genP1
 }
 
+// verifMapLike: an encoding that the (stubbed) codec turns into a claims-set / an item other
+// than null starts with the head of that item: in particular it is not the one-byte encoding
+// of null or undefined, nor a tag. (The stubs attach meaning to buffers by identity, their
+// content is otherwise arbitrary; code under test that looks at the first byte must see
+// something consistent with the meaning.)
+func verifMapLike(b []byte) {
+	if ndSymbolic() && len(b) > 0 {
+		ndAssume(b[0] != 0xf6 && b[0] != 0xf7 && b[0]>>5 != 6)
+	}
+}
+
+// verifScript: the decoder yields g (nil = error) for exactly this buffer
+func verifScript(buf []byte, g *genP1) {
+	if g != nil {
+		verifMapLike(buf)
+	}
+	verifStub.byBuf = append(verifStub.byBuf, verifBufClaims{buf: buf, g1: g})
+}
+
 // verifScriptFor: (claims to yield, scripted?) for this input buffer
 func verifScriptFor(data []byte) (*genP1, bool) {
 	for _, b := range verifStub.byBuf {
@@ -154,6 +173,7 @@ func (verifEM) Marshal(v interface{}) ([]byte, error) {
 	}
 	out := ndBytes("em.out" + label)
 	ndAssume(len(out) > 0)
+	verifMapLike(out)
 	return out, nil
 }
 func (verifEM) NewEncoder(w io.Writer) *cbor.Encoder { return nil }
